@@ -10,121 +10,121 @@ HERE = os.path.dirname(os.path.dirname(os.path.abspath(__file__)))
 # property -> (technique, level text, level note, design ref)
 CHECKS = {
     "C01": (
-        "ast table agreement (writer map vs loader slots), getter/setter key agreement, lazy-field read lint, store->persist dataflow on PropertyGroup, who-may-write on registries; must-pass-through flow rules on the open / register / fetch_children path (C01.FLOW); unlink provenance / coverage in remove_children and node-deletion guard in H5Writer.remove_entity (C01.UNLINK); every uid registry reset on re-open",
+        "ast table agreement (writer map vs loader slots), getter/setter key agreement, lazy-field read lint, store->persist dataflow on PropertyGroup, who-may-write on registries; must-pass-through flow rules on the open / register / fetch_children path (C01.FLOW); unlink provenance / coverage in remove_children and node-deletion guard in H5Writer.remove_entity (C01.UNLINK); every uid registry reset on re-open; loops over children read from the file are never left early (generator helpers unfolded); adoption of an existing node only for objects that are on file (C01.STALE); identifier re-assignment of registered objects (C01.IDENT)",
         "Decides structural necessary conditions of 're-open yields the live state': every key the writer emits has a loader slot, array getters fetch the key their setter writes and from the container the writer used, no method reads a lazily loaded field behind its getter, property-group edits reach the writer, registries hold weak references only. Does not decide equality of trees over all histories / GC schedules.",
         "conditions uninterpreted; python ast; own class model (MRO, properties, attribute maps)",
         "DESIGN.md §3 C01",
     ),
     "C02": (
-        "format-document vs code table agreement, hard-link provenance (reaching definitions) in the writer, path rule on the parent setter; Root-link identity, re-parent conjunct check, property-group membership conversion; Type link stored before other fallible writer calls; handle denotation (which node an expression stands for) instead of spelling",
+        "format-document vs code table agreement, hard-link provenance (reaching definitions) in the writer, path rule on the parent setter; Root-link identity, re-parent conjunct check, property-group membership conversion; Type link stored before other fallible writer calls; handle denotation (which node an expression stands for) instead of spelling; provenance dataflow for property-group members; every detach reaches the file removal, every container unlinks regular children (C02.ORPHAN)",
         "Decides: skeleton / type uids / attribute names agree with the format document; every Type and parent->child link store has the writer-returned node as right-hand side and the entity's uid as key; re-parenting unlinks the old parent; no soft/external links or node copies. Does not decide validity over all histories.",
         "format document is the oracle for names; h5py hard-link semantics",
         "DESIGN.md §3 C02",
     ),
     "C03": (
-        "path-sensitive store->persist dirty-set dataflow over every resolved setter, interprocedural summaries, dispatcher/route table extraction; in-place-edit-of-getter-object must-store-back rule (C03.INPLACE); writer evaluates the public getter before the backing field; every dataset writer addresses the stored dataset before deciding what to write (C03.RESET); only None may make a setter do nothing (C03.SKIP); a field that shadows another in its getter is re-stored by the setter (C03.SHADOW)",
+        "path-sensitive store->persist dirty-set dataflow over every resolved setter, interprocedural summaries, dispatcher/route table extraction; in-place-edit-of-getter-object must-store-back rule (C03.INPLACE); writer evaluates the public getter before the backing field; every dataset writer addresses the stored dataset before deciding what to write (C03.RESET); only None may make a setter do nothing (C03.SKIP); a field that shadows another in its getter is re-stored by the setter (C03.SHADOW); every HDF5 write replaces the stored object, never modifies it in place (C03.RETYPE); None reaches the file as a removal",
         "Decides the property for its whole configuration quantifier — every (class, assignable persisted attribute) pair from the attribute maps, KEY_MAP and dedicated routes — up to value independence: on every normal path of the setter the stored field is handed, after its last store, to a writer branch that writes that field, on a receiver the gateway accepts, and the gate forwards it. Does not decide encoding correctness (C08).",
         "conditions uninterpreted except `if value is not None` / gateway-availability guards; calls do not raise unless explicit",
         "DESIGN.md §3 C03",
     ),
     "C04": (
-        "insert/remove symmetry over the concatenator's stores per entity kind, re-keying reachability, record-field agreement, escape symmetry; deferred-flush, fresh-container (copy / writer substitution / dtype cast), start-index provenance and name-key routing rules; content-independent write-through of the concatenated writer and update_array_attribute (C04.SKIP); hole enumeration ordered by start index (C04.ORDER)",
+        "insert/remove symmetry over the concatenator's stores per entity kind, re-keying reachability, record-field agreement, escape symmetry; deferred-flush, fresh-container (copy / writer substitution / dtype cast), start-index provenance and name-key routing rules; content-independent write-through of the concatenated writer and update_array_attribute (C04.SKIP); hole enumeration ordered by start index (C04.ORDER); index row re-bound on every path of delete_index_data; memoised table views reset by every table mutator (C04.MEMO); Index and Data of a name written under one label (C04.CHANNEL); table columns gathered from the sequence that labels them (C04.COLUMNS)",
         "Decides: what add_save_concatenated inserts per entity kind remove_entity scrubs; the name setter of key sources re-keys; index record field names/positions agree with the dtype literal; '/' escaping is symmetric. Does not decide the index arithmetic (tiling, start shifts).",
         "store labels extracted from literals and KEY_MAP; isinstance/hasattr branches taken as kind partition",
         "DESIGN.md §3 C04",
     ),
     "C05": (
-        "dominance of the delete-permission guard, receiver-identity call-graph exploration for iterate-while-removing, sibling agreement of removal entry points, kind-pruned path pairing; one-shot and child-reaches-flat-deletion rules; Concatenator.remove_entity reaches every scrub of its kind with the deleting side agreeing with the writing side (C05.CONCAT); only containers the file layout has reach the writer's removal, interprocedural constant propagation pruned by path conditions (C05.SWEEP)",
+        "dominance of the delete-permission guard, receiver-identity call-graph exploration for iterate-while-removing, sibling agreement of removal entry points, kind-pruned path pairing; one-shot and child-reaches-flat-deletion rules; Concatenator.remove_entity reaches every scrub of its kind with the deleting side agreeing with the writing side (C05.CONCAT); only containers the file layout has reach the writer's removal, interprocedural constant propagation pruned by path conditions (C05.SWEEP); aliasing of the request with the edited child list (C05.ALIAS); fields caching a child reset on removal (C05.CHILDREF); deferred deletions swept before close / no key dropped without the node (C05.DEFERRED)",
         "Decides: allow_delete guard dominates every deletion effect; no removal loop mutates the list it iterates (through calls and the child.parent back-pointer); callers of the concatenated removal agree on dropping the child; Data/PropertyGroup branches pair the list removal with the scrub and the file unlink; remove_entity reaches the flat-container deletion with the right container. Does not decide 'all references gone after any history'.",
         "abstract objects R/CHILD/WS; class-hierarchy analysis for unresolved receivers (reported chains only when the mutating receiver is R)",
         "DESIGN.md §3 C05",
     ),
     "C06": (
-        "who-may-write on registries, cross-kind duplicate-test coverage, effect-before-fallible-registration ordering, guard dominance on uid reuse; insert_once-first ordering, add_children uid guard, kwargs-merged-before-test; per-iteration uid arguments of copies made in a loop (C06.FRESH); type look-up restricted to the requesting class (C06.TYPEKIND)",
+        "who-may-write on registries, cross-kind duplicate-test coverage, effect-before-fallible-registration ordering, guard dominance on uid reuse; insert_once-first ordering, add_children uid guard, kwargs-merged-before-test; per-iteration uid arguments of copies made in a loop (C06.FRESH); type look-up restricted to the requesting class (C06.TYPEKIND); identifier final before the entity is first shown to its parent / workspace; registry edits through loops over the registries; overrides of the copy do not reach its type; concatenated identifiers looked up in the target",
         "Decides: registries written only through insert_once; duplicate test spans entity kinds; no effect on another object precedes the fallible registration in constructors; uid reuse on copy is guarded by a lookup in the target. Does not decide uniqueness over all histories.",
         "constructor chain resolved through super().__init__",
         "DESIGN.md §3 C06",
     ),
     "C07": (
-        "pairing + provenance of indices/association in remove_vertices / remove_cells, raise-before-store ordering, finite case split on value length; mask-only consumption of removal indices, element-count dependence of subset/fill, class filter breadth; must-analysis that copied cells are renumbered through the mask table on every path (C07.RENUM); no element-wise write into arrays sharing memory with the source in copy methods (C07.FRESH)",
+        "pairing + provenance of indices/association in remove_vertices / remove_cells, raise-before-store ordering, finite case split on value length; mask-only consumption of removal indices, element-count dependence of subset/fill, class filter breadth; must-analysis that copied cells are renumbered through the mask table on every path (C07.RENUM); no element-wise write into arrays sharing memory with the source in copy methods (C07.FRESH); per-child mask origin analysis in masked copies (C07.CHILDMASK); empty-selection guards before reductions after the geometry store (C07.EMPTY); length handling per data kind (C07.LENKIND); refusal guards independent of the lazy cache (C07.CACHEGUARD)",
         "Decides: each geometry shrink is followed by remove_children_values with the matching association and the same indices; explicit raises precede the first store; format_length pads with the class no-data value, refuses longer arrays, and the values setter stores only format_values' result. Does not decide the re-indexing arithmetic.",
         "numpy semantics as documented",
         "DESIGN.md §3 C07",
     ),
     "C08": (
-        "constant agreement (code vs format document), provenance of the array handed to create_dataset, codec agreement, guard-before-lossy-cast table; no-data code not cast to the input dtype; replace-means-delete-first for dataset writers (C08.REWRITE); NDV masks not wider than the stored ones",
+        "constant agreement (code vs format document), provenance of the array handed to create_dataset, codec agreement, guard-before-lossy-cast table; no-data code not cast to the input dtype; replace-means-delete-first for dataset writers (C08.REWRITE); NDV masks not wider than the stored ones; casts on every return path of format_type; text decoded for every storage kind (C08.DECODE); strict json.dumps (C08.JSON); unsigned 32-bit key range guard",
         "Decides: no-data constants agree between writer, reader, data classes and the document; NaN<->no-data substitution is on every numeric write and float read path; every encode/decode names the same codec; lossy casts are range/type guarded. Does not decide equality of arbitrary arrays after a round trip.",
         "float32/int32 comparison of constants; numpy cast semantics",
         "DESIGN.md §3 C08",
     ),
     "C09": (
-        "handle provenance (reaching definitions) for every HDF5 mutation site in the writer, idempotence of the re-save path by `not in` dominance; by-name handle shortcut restricted to non-entities (C09.HANDLE)",
+        "handle provenance (reaching definitions) for every HDF5 mutation site in the writer, idempotence of the re-save path by `not in` dominance; by-name handle shortcut restricted to non-entities (C09.HANDLE); abstract interpretation of member counts: a writer deletes only its target's entry of the parent's containers (C09.PARENT); the sweep of dead types decided by a test on the identifier (C09.TYPESWEEP); writer calls relative to the parent the container gave (C09.GIVEN)",
         "Decides: every create/delete/link store in the writer acts on a handle derived from the target entity, its parent or its type; on the close() re-save path every mutation is dominated by a `not in` test of the key it creates. Does not decide byte-level equality of other nodes.",
         "handle parameters resolved through their callers",
         "DESIGN.md §3 C09",
     ),
     "C10": (
-        "who-may-call + dominance: every H5Writer reference is an _io_call argument with a writable mode constant; guard dominance in _io_call; h5py mutation API / h5py.File / _geoh5 who-may-use; open-mode provenance; reader taint; close() effects (final saves, h5repack rewrite) conditional on a writable handle (C10.REPACK); no persisting call on the load path incl. constructors (C10.LOAD); update_attribute cannot complete normally on a read-only handle (C10.FUNNEL); no re-open while a live handle is held (C10.REOPEN); requested mode never dropped",
+        "who-may-call + dominance: every H5Writer reference is an _io_call argument with a writable mode constant; guard dominance in _io_call; h5py mutation API / h5py.File / _geoh5 who-may-use; open-mode provenance; reader taint; close() effects (final saves, h5repack rewrite) conditional on a writable handle (C10.REPACK); no persisting call on the load path incl. constructors (C10.LOAD); update_attribute cannot complete normally on a read-only handle (C10.FUNNEL); no re-open while a live handle is held (C10.REOPEN); requested mode never dropped; the mode the workspace was asked for restricts writes and close effects even when the handle reports another mode (C10.ASKED)",
         "Decides the property structurally for all programs: the code funnels every write through one guarded gateway, the guard dominates the call, nothing else can mutate or re-open the file writable. Assumes user code uses the public API.",
         "h5py API names; user code does not reach into private members",
         "DESIGN.md §3 C10",
     ),
     "C11": (
-        "acquire/release pairing over every open site (CFG incl. finally/with), __exit__ shape, raising-property gate; close() final save on every writable path, save_as closes before copying; registries reset on every re-open path (C11.REOPEN)",
+        "acquire/release pairing over every open site (CFG incl. finally/with), __exit__ shape, raising-property gate; close() final save on every writable path, save_as closes before copying; registries reset on every re-open path (C11.REOPEN); File.close() reached over the exceptional edges of the final save; the writable test reads the handle's mode (a remembered request may only restrict it); write-back not switchable through a public setter (C11.FLUSH)",
         "Decides: every file acquisition is stored in the gateway field, used as context manager, or closed on all paths; __exit__ closes unconditionally and does not swallow; closed-file accesses meet the raising property. Does not decide file completeness after an exception at an arbitrary point.",
         "context-manager protocol; close() itself not raising before File.close()",
         "DESIGN.md §3 C11",
     ),
     "C12": (
-        "alias analysis of harvested attributes: getter returns stored object x setter stores by reference x in-place mutator on the MRO x not omitted on the copy chain; fresh-array rule for format_type; shape rules: entity-valued fields omitted, property-group member order, no kwargs leak into the subtree, type helper objects re-created; provenance rule: no copy method writes into an object traced to the source (C12.SOURCE); property-group attribute table agreement (C12.PGROUP); dict-valued harvested fields copied on harvest; nested metadata entries not handed over by reference (C12.NESTED)",
+        "alias analysis of harvested attributes: getter returns stored object x setter stores by reference x in-place mutator on the MRO x not omitted on the copy chain; fresh-array rule for format_type; shape rules: entity-valued fields omitted, property-group member order, no kwargs leak into the subtree, type helper objects re-created; provenance rule: no copy method writes into an object traced to the source (C12.SOURCE); property-group attribute table agreement (C12.PGROUP); dict-valued harvested fields copied on harvest; nested metadata entries not handed over by reference (C12.NESTED); overrides handed to copies come from the source (C12.OVERRIDE); harvests omit _on_file (C12.HARVEST); dedup key = fetch key (C12.DEDUP); list / array fields copied on harvest; children snapshot before the copy exists (C12.SNAPSHOT); children skipped by name only where the class owns link data of that name (C12.BYNAME)",
         "Decides one necessary condition of 'edits of the copy do not show in the source': no harvested mutable attribute is shared by reference and mutated in place. Does not decide attribute-by-attribute equality of copies.",
         "omit lists read from the copy chain literals",
         "DESIGN.md §3 C12",
     ),
     "C13": (
-        "delegation check of all mask_by_extent overrides to the single predicate with inverse forwarded; comparison-operator lint on the predicate and box_intersect; inverse/extent forwarding at every nested selection call and mask flow into copy(mask=) (C13.FWD); orphan-intersection must-pass-through (C13.ORPHAN); flow-sensitive taint: the blanking mask of a clipped grid derives only from predicate evaluations on the source (C13.ONCE)",
+        "delegation check of all mask_by_extent overrides to the single predicate with inverse forwarded; comparison-operator lint on the predicate and box_intersect; inverse/extent forwarding at every nested selection call and mask flow into copy(mask=) (C13.FWD); orphan-intersection must-pass-through (C13.ORPHAN); flow-sensitive taint: the blanking mask of a clipped grid derives only from predicate evaluations on the source (C13.ONCE); bounding box covers the attributes selected on and is never stale (C13.BBOX); sub-grid spans the selection (C13.SPAN); the mask handed to copy(mask=) is computed on the coordinates copy sub-samples (C13.AGREE)",
         "Decides: every override obtains its mask from shared.utils.mask_by_extent and forwards inverse; the predicate's comparisons are closed, box_intersect rejects only strictly disjoint boxes. Does not decide numerical exactness.",
         "numpy comparison semantics",
         "DESIGN.md §3 C13",
     ),
     "C14": (
-        "mapper-table inversion check between the write and read pipelines; collision analysis of sentinel encodings; writer tokens cover reader tokens, flatten's None gate depends on `enabled` only, option defaults agree with the declared default, save/restore pairing (C14.FLAT); update_ui_values leaves a value unwritten only for a form read as disabled after set_enabled (C14.UPDATE)",
+        "mapper-table inversion check between the write and read pipelines; collision analysis of sentinel encodings; writer tokens cover reader tokens, flatten's None gate depends on `enabled` only, option defaults agree with the declared default, save/restore pairing (C14.FLAT); update_ui_values leaves a value unwritten only for a form read as disabled after set_enabled (C14.UPDATE); mapper order does not shadow (C14.SHADOW); set_enabled stores the own state of optional forms on every path (C14.ENABLE); write side covers every kind the read side produces (C14.COVER); forms numified before validation (C14.VALID); finiteness predicates only on floats (C14.TOTAL)",
         "Decides: each write mapper has its inverse in the read pipeline, ordering constraints hold, literal tokens agree; reports the by-construction collisions of the string sentinels. Does not decide equality of arbitrary form dictionaries.",
         "mapper lists read from list literals",
         "DESIGN.md §3 C14",
     ),
     "C15": (
-        "interprocedural effect analysis (self fields, arguments, globals, shallow-copy aliasing) from every validation entry point; accumulator reset-on-every-exit dataflow; validate-before-commit ordering; decision-input rule for the dependency selector and dispatch coverage of AssociationValidator (C15.RULES); carried-state rule on the form-replacing setter (C15.STALE); truth table of requires_value against the documented hierarchy",
+        "interprocedural effect analysis (self fields, arguments, globals, shallow-copy aliasing) from every validation entry point; accumulator reset-on-every-exit dataflow; validate-before-commit ordering; decision-input rule for the dependency selector and dispatch coverage of AssociationValidator (C15.RULES); carried-state rule on the form-replacing setter (C15.STALE); truth table of requires_value against the documented hierarchy; no in-place mutation of module / class level containers (C15.SHARED); group switch decided by the value; per-pair membership; option restored when a validation raises; rule-deriving getters are pure",
         "Decides statelessness structurally: no validation entry point has a side effect that outlives the call, and setters validate before they commit. Does not decide the accept-iff-valid truth table.",
         "calls leaving ui_json/* and shared/validators.py are treated as reads",
         "DESIGN.md §3 C15",
     ),
     "C16": (
-        "provenance of the cell index offset and of the data offsets in the mergers; every update of the running-offset dictionary adds the input object's own counts; drape re-indexing iterates the children; symbolic evaluation of vectorised offset scans (exclusive prefix sum), apply-before-advance ordering",
+        "provenance of the cell index offset and of the data offsets in the mergers; every update of the running-offset dictionary adds the input object's own counts; drape re-indexing iterates the children; symbolic evaluation of vectorised offset scans (exclusive prefix sum), apply-before-advance ordering; grouping key determines every attribute of the merged data (C16.KEY); no create keyword re-binds the storage of another (C16.KEEP); drape index offsets accumulate the count of the array they index",
         "Decides: the offset added to each input's cells derives from vertex counts only, data offsets from the count of their association. Does not decide coordinate-wise equality of the merged object.",
         "reaching definitions inside one function",
         "DESIGN.md §3 C16",
     ),
     "C17": (
-        "memoised-getter dependency closure + cache-invalidation must-follow dataflow over every setter/method on the MRO (interprocedural); rotation-operand / origin taint and sign-preserving cell sizes (C17.ROT); structured-origin agreement between stores and field reads (C17.ORIGIN); identity (not order) comparisons between vertex indices in Curve.parts (C17.PARTS)",
+        "memoised-getter dependency closure + cache-invalidation must-follow dataflow over every setter/method on the MRO (interprocedural); rotation-operand / origin taint and sign-preserving cell sizes (C17.ROT); structured-origin agreement between stores and field reads (C17.ORIGIN); identity (not order) comparisons between vertex indices in Curve.parts (C17.PARTS); rotation sense agreement across grid classes (side x transposition); no vertex-order accumulation in parts; labels stored on every path of the parts setter; method-filled memos in the cache analysis",
         "Decides: every store to an input field of a memoised geometry getter (centroids; Curve parts) is accompanied by a cache reset on every path. Does not decide the index formulas or rotations.",
         "dependency closure does not follow identity attributes (uid, on_file, workspace, parent, entity_type, name)",
         "DESIGN.md §3 C17",
     ),
     "C18": (
-        "cache-invalidation dataflow for Drillhole._locations; provenance of add_vertices arguments in validate_depth_data / validate_interval_data; permutation map-back for searchsorted in a sorted copy and all-components reduction of the interval match (C18.MATCH); one-station provenance of direction evaluations (C18.DEV); stored depths never overwritten by added ones (C18.KEEP); class-filter breadth of sort_depths (C18.SORTALL); text fill width taken from the values (C18.WIDTH)",
+        "cache-invalidation dataflow for Drillhole._locations; provenance of add_vertices arguments in validate_depth_data / validate_interval_data; permutation map-back for searchsorted in a sorted copy and all-components reduction of the interval match (C18.MATCH); one-station provenance of direction evaluations (C18.DEV); stored depths never overwritten by added ones (C18.KEEP); class-filter breadth of sort_depths (C18.SORTALL); text fill width taken from the values (C18.WIDTH); lower clamp on searchsorted-derived indices (C18.CLAMP); inverse permutation for cells after a vertex gather (C18.INVPERM); no re-ordering on the surveys data flow (C18.ORDER)",
         "Decides: _locations is reset by every store to its inputs; vertices added for depth data come from desurvey of those depths. Does not decide the path geometry.",
         "same as C17",
         "DESIGN.md §3 C18",
     ),
     "C19": (
-        "guard lint over every access to optional file content in H5Reader (in-test / .get / except KeyError dominance); try-scope rule for loops over file items (C19.SCOPE); no persisting call on the load path incl. constructors (C19.LOAD); root-rebuild re-attachment (C19.REBUILD); no literal defaults for items the file lacks (C19.DEFAULT); copies of node members treated as the node",
+        "guard lint over every access to optional file content in H5Reader (in-test / .get / except KeyError dominance); try-scope rule for loops over file items (C19.SCOPE); no persisting call on the load path incl. constructors (C19.LOAD); root-rebuild re-attachment (C19.REBUILD); no literal defaults for items the file lacks (C19.DEFAULT); copies of node members treated as the node; an unloadable element skips itself only (C19.ELEMENT); no raising lookup in front of a tolerant read that has a fallback (C19.FALLBACK)",
         "Decides: every subscript of optional content in the reader is guarded; unguarded subscripts only for the mandatory containers. Does not decide that unaffected entities come back unchanged.",
         "optional/mandatory classification from the format document and a named list",
         "DESIGN.md §3 C19",
     ),
     "C20": (
-        "sibling table over the survey class pairs (link keys, TYPE_MAP, complements, default metadata), propagation-loop coverage, copy provenance; metadata setters reach the store on every normal path (C20.STORE); class-private name resolution (C20.MANGLE); link setters re-bind the partner cache their getter answers from (C20.LINKCACHE); no UUID-valued metadata entry copied to another entity (C20.COPYMETA)",
+        "sibling table over the survey class pairs (link keys, TYPE_MAP, complements, default metadata), propagation-loop coverage, copy provenance; metadata setters reach the store on every normal path (C20.STORE); class-private name resolution (C20.MANGLE); link setters re-bind the partner cache their getter answers from (C20.LINKCACHE); no UUID-valued metadata entry copied to another entity (C20.COPYMETA); no refusal after the cache is bound; partner caches refreshed with the shared dictionary (C20.PARTNERCACHE); caches bound only where the link is recorded (C20.CACHEBIND); copy order (C20.COPYORDER); common read for re-numbered ids (C20.RENUMBER)",
         "Decides: getter key = setter key = TYPE_MAP entry per link property and class pair; metadata propagation enumerates every partner; copies are linked to copies. Does not decide visibility of edits for all edit sequences.",
         "name-mangled class constants resolved statically",
         "DESIGN.md §3 C20",
@@ -187,7 +187,7 @@ def main():
         "checks": checks,
         "notes": (
             "All checks are static (python ast over /repo/geoh5py, parsed on every run). Rules decide on normalised code (DESIGN.md §11) and are "
-            "tested both ways: 1130 mutants incl. the 115 reportable of 120 red-team seeds must be reported, 799 twins incl. 140 kept behaviour-preserving refactorings must stay silent (DESIGN.md §12.5). "
+            "tested both ways: 1371 mutants incl. the 173 reportable of 180 red-team seeds (3 rounds) must be reported, 925 twins incl. 140 kept behaviour-preserving refactorings must stay silent (DESIGN.md §13.5). "
             "Exit 0 = held (KNOWN-FINDING lines for "
             "recorded genuine defects, /verif/known_findings.json), 1 = VIOLATION, 2 = ANALYSIS-ERROR (anchor lost / floor not met). "
             "Repairs of genuine defects in /repo are separate 'fix:' commits: " + "; ".join(commits)
